@@ -413,6 +413,13 @@ def strat_view(draw, tier="quick"):
         sp["decoy_shift"] = len(unit) * draw(st.sampled_from([-2, -1, 1, 1, 2]))
     if kind in ("feat", "tx", "cds") and draw(st.integers(0, 3)) == 0:
         sp["chunk_strand"] = "-"   # the chunk is the reverse complement of its window (seq_chunk_to_parent(strand=MINUS))
+        if kind == "tx" and o.get("cds_overlapped"):
+            # seen from a reverse-complement chunk the CDS is on the other strand: a codon straddling the overlap must still be
+            # representable there (ties on start are broken differently on the two strands, finding F25)
+            cod, _ = rm.frame_walk(o["cds"], o["strand"], o["frames"])
+            mirrored = [tuple(ce - 1 - p_ for p_ in c_) for c_ in cod]
+            if not rm.codons_representable(mirrored, rm.flip(o["strand"])):
+                del sp["chunk_strand"]
     return sp
 
 
